@@ -350,9 +350,9 @@ func (tx *Tx) rollback() {
 				tx.db.freelist.Reload(tx.db.page(tx.db.meta().Freelist()))
 			}
 		}
-		if common.VerifEnabled {
-			tx.db.verifEvent("RollbackPhysical", tx.meta.Txid())
-		}
+	}
+	if common.VerifEnabled && tx.writable {
+		tx.db.verifEvent("RollbackPhysical", tx.meta.Txid())
 	}
 	tx.close()
 }
